@@ -209,7 +209,8 @@ impl<R: DynamicChannelRegion> RegionHandler for DynamicChannelPlan<R> {
     }
 
     fn get_datarate(&self, dr: u8) -> Option<&Datarate> {
-        R::datarates()[dr as usize].as_ref()
+        // DR15 (RFU) can arrive in a JoinAccept; the table only has NUM_DATARATES entries.
+        R::datarates().get(dr as usize)?.as_ref()
     }
 
     fn select_tx_channel<RNG: RngCore>(
